@@ -3231,10 +3231,11 @@ fn generate_constraints_expr(
         ExprKind::MemberAccess(accessed, member_ident) => {
             if let Some(Declaration::EnumVariant {
                 e: enum_def,
-                variant: _,
+                variant,
             }) = ctx.resolution_map.get(&member_ident.id).cloned()
             {
                 // qualified enum with no associated data
+                report_variant_missing_arguments(ctx, &enum_def, variant, expr.node());
                 let (def_type, _) = TypeVar::make_nominal_and_substitution(
                     ctx,
                     Reason::Node(accessed.node()),
@@ -3360,6 +3361,7 @@ fn generate_constraints_expr(
                         variant: idx,
                     },
                 );
+                report_variant_missing_arguments(ctx, &enum_def, idx, expr.node());
 
                 let (enum_ty, _) = TypeVar::make_nominal_and_substitution(
                     ctx,
@@ -3526,6 +3528,26 @@ fn generate_constraints_expr(
     }
     let node_ty = TypeVar::from_node(ctx, expr.node());
     handle_ana(ctx, mode, node_ty);
+}
+
+// A variant that carries data is only a value once it is applied to its arguments:
+// `Msg.Say` on its own would be a `Msg` without its string.
+fn report_variant_missing_arguments(
+    ctx: &mut StaticsContext,
+    enum_def: &Rc<EnumDef>,
+    variant: usize,
+    node: AstNode,
+) {
+    let variant = &enum_def.variants[variant];
+    if !variant.fields.is_empty() {
+        ctx.errors.push(Error::GenericWithNode {
+            msg: format!(
+                "Variant `{}` carries data, but its arguments are missing",
+                variant.ctor.v
+            ),
+            node,
+        });
+    }
 }
 
 fn tyvar_of_decl(
